@@ -85,6 +85,9 @@ def main():
             ck.fail(key, desc, {"scenario": scs4[i], "detail": det, "how": "harness/impl/simlib.py (txn_begin / txn_exec / txn_end actions) on the real FlumineSimulation"})
     scs3 = [c04.race_scenario(rng) for _ in range(600 if thorough else 150)]
     simcheck.run_family(ck, "simulation_requests_in_flight_races", scs3, propcheck.c03, "C03", "race", hyp=True)
+    # the BETDAQ path of a live Flumine (outside the Coq live model): placements whose answer the order poll overtakes, matches, polls, price changes, cancels
+    import betdaqcheck
+    betdaqcheck.run_family(ck, rng, 60 if thorough else 20, "betdaq_lifecycle", ("C03",))
     return ck.finish("live: random histories and fault enumeration on the real BetfairOrder guards / BetfairExecution handlers / process_current_orders with a consistent exchange double (delayed responses, exchange-side fills and lapses, snapshots, restarts), every step compared with the Coq live model; status logs checked against the documented lifecycle, rejected requests for an error without side effects, one operation in flight, finality.  simulation: whole-loop scenarios and latency-window races compared with the simulation model; the same transition / guard / finality checker on the orders' status logs and request records")
 
 
